@@ -1,3 +1,38 @@
-/-! # C09 — property theorems (stub: filled in when the property's model is built) -/
+import ScenicModel.Props.C09Peg
+import ScenicModel.Props.C09Rewrites
+/-!
+# C09 — plain Python inside Scenic compiles to exactly what CPython would parse
+
+The property has two halves, each with its own model and theorems, both instantiated on data regenerated from
+`/repo` on every run:
+
+* grammar (`Props/C09Peg.lean`): `front_insertion_conservative`, `scenic_grammar_conservative`,
+  `guarded_alternative_fails`, `scenic_rules_fail`, `erased_result_is_full_result`;
+  side conditions `gen_F_ok`, `gen_S_ok`, `gen_residue`, `gen_residue_named`, `gen_residue_allowed`, `gen_scenic_hard`;
+* compile step (`Props/C09Rewrites.lean`): `compile_identity_off_triggers`, `rw_keeps_location`,
+  `compile_keeps_root_location`, `compile_invents_no_line`, `compile_leaves_no_gap`;
+  side conditions `gen_cfg_ok`, `gen_cfg_documented`.
+
+The full statement ("for every Python module without reserved words Scenic's tree equals CPython's tree after the
+documented rewrites") additionally needs: the erased grammar `pythonCore` is CPython's grammar, the actions build
+CPython's nodes, the tokenizers agree. Those are not formal objects here; they are validated by the differential run
+over the standard library / site-packages on every check (see `tools/props/c09.py`), which at the time of writing
+finds the deviations listed in `findings.d/C09.json`.
+-/
 namespace Scenic.C09
+
+/-- the two halves, stated together for the generated data -/
+theorem plain_python_partial :
+    (∀ (toks : Array Peg.Tok), Peg.wordFree Gen.Grammar.scenicWordMask toks → ∀ fuel,
+        Peg.parse Gen.Grammar.grammar toks false fuel Gen.Grammar.start ≠ .oof →
+        Peg.parse pythonCore toks false fuel Gen.Grammar.start
+          = Peg.parse Gen.Grammar.grammar toks false fuel Gen.Grammar.start) ∧
+    (∀ t : Rewrites.T, Rewrites.located t = true → Rewrites.noTrigger Gen.RewriteData.cfg t = true →
+        Rewrites.compile Gen.RewriteData.cfg t = some t) ∧
+    (∀ t t' : Rewrites.T, Rewrites.compile Gen.RewriteData.cfg t = some t' →
+        Rewrites.located t' = true ∧ ∀ n ∈ Rewrites.lines t', n ∈ Rewrites.lines t ∨ n = 1) :=
+  ⟨fun toks hW fuel h => scenic_grammar_conservative toks hW fuel h,
+   fun t hl h => scenic_compile_identity_off_triggers t hl h,
+   fun t t' h => ⟨compile_leaves_no_gap _ t t' h, scenic_compile_invents_no_line t t' h⟩⟩
+
 end Scenic.C09
